@@ -16,8 +16,8 @@ EXTENDS TxPool, Json
 
 Trace == ndJsonDeserialize("trace.ndjson")
 
-VARIABLES l, bad, T, nonceOf, pending, executed, readded
-tvars == <<l, bad, T, nonceOf, pending, executed, readded>>
+VARIABLES l, bad, T, nonceOf, pending, executed, readded, age
+tvars == <<l, bad, T, nonceOf, pending, executed, readded, age>>
 
 Tag(c, t) == IF c THEN <<>> ELSE <<t>>
 Set(sq) == {sq[i] : i \in 1..Len(sq)}
@@ -66,10 +66,16 @@ JudgeMark(e) ==
 
 JudgeUnMark(e) ==
   LET txs == Set(e.txs)  post == UnMarkPost(pending, executed, e.txs) IN
-  Tag(Len(pending) + Len(e.txs) <= Limit => txs \subseteq Set(e.state.pending), "Inv.ReorgPending") \o
+  Tag(txs \subseteq Set(e.state.pending), "Inv.ReorgPending") \o
   Tag(txs \cap ObsExecuted(e.state) = {}, "Inv.ReorgNotExecuted") \o
   Tag(e.state.pending = post.pending, "UnMark.pending") \o
   Tag(ObsExecuted(e.state) = post.executed, "UnMark.executed")
+
+(* one pass of the ageing ticker: pending transactions that reach ExpiredRing ticks are dropped,
+   nothing else changes (age: ticks since the transaction was last pushed) *)
+JudgeTick(e) ==
+  Tag(e.state.pending = TickPost(pending, age), "Tick.pending") \o
+  Tag(ObsExecuted(e.state) = executed, "Inv.TickKeepsExecuted")
 
 (* two overlapping calls on transaction 1 (thread 1: AddTransaction; thread 2: e.op2): what was
    observed - both results and the final pool - must be what one of the two sequential orders
@@ -93,13 +99,18 @@ Judge(e) ==
      [] e.event = "Pack" -> JudgePack(e)
      [] e.event = "Mark" -> JudgeMark(e)
      [] e.event = "UnMark" -> JudgeUnMark(e)
+     [] e.event = "Tick" -> JudgeTick(e)
+     [] e.event = "TickRace" ->      \* bookings + reorgs with the ageing ticker running alongside (compact event)
+          Tag(e.lost = 0, "Inv.ReorgPending.tick-race") \o
+          Tag(e.stillExecuted = 0, "Inv.ReorgNotExecuted.tick-race") \o
+          Tag(e.lookupWrong = 0, "Inv.LookupAgrees.tick-race")
      [] e.event = "FullPoolReorg" ->     \* a reorg while the pool is at its size limit (compact event)
           Tag(e.pendingAgain = e.block, "Inv.ReorgPending.full-pool") \o
           Tag(e.stillExecuted = 0, "Inv.ReorgNotExecuted.full-pool")
      [] OTHER -> <<>>) \o JudgeState(e.state)
 
 TraceInit == /\ l = 1 /\ bad = <<>> /\ T = <<>> /\ nonceOf = <<>> /\ pending = <<>> /\ executed = {}
-             /\ readded = {}
+             /\ readded = {} /\ age = <<>>
 
 TraceNext ==
   /\ l <= Len(Trace)
@@ -108,6 +119,9 @@ TraceNext ==
        /\ bad' = bad \o [i \in 1..Len(J) |-> <<l, e.event, J[i]>>]
        /\ pending' = e.state.pending
        /\ executed' = ObsExecuted(e.state)
+       /\ age' = IF e.event = "Reset" THEN [i \in 1..Len(e.txs) |-> 0]
+                 ELSE IF e.event = "Tick" THEN [i \in DOMAIN age |-> IF i \in Set(pending) THEN age[i] + 1 ELSE age[i]]
+                 ELSE [i \in DOMAIN age |-> IF i \in Set(e.state.pending) /\ i \notin Set(pending) THEN 0 ELSE age[i]]
        /\ IF e.event = "Reset" THEN T' = TOf(e) /\ nonceOf' = NonceFn(e) /\ readded' = {}
           ELSE /\ UNCHANGED <<T, nonceOf>>
                /\ readded' = IF e.event = "UnMark" THEN readded \cup Set(e.txs)
